@@ -430,33 +430,60 @@ Definition forbidden_in (container : kind) : list kind :=
   if kind_beq container MEDIA_RULE then media_forbidden_insert else page_forbidden_insert.
 
 (* env: the namespaces of the sheet the container belongs to (cssrule.py _prepareInsertRule parses the text with
-   self.parentStyleSheet.namespaces) *)
+   self.parentStyleSheet.namespaces).
+   @page (csspagerule.py insertRule, flags regenerated in Gen/Kinds.v): a text is parsed as ONE margin rule by
+   MarginRule().cssText before the index is looked at (the first statement decides: a margin rule is taken, a comment
+   gives InvalidModificationErr, anything else SyntaxErr); a margin that is already there is merged into the existing
+   rule, whose index is returned (one margin name in the alphabet). *)
+Definition page_text_kind (rx : bool) (ps : list proto) : kind + result :=
+  match ps with
+  | [] => inr (log_error rx SyntaxErr)
+  | p :: _ => if kind_beq (pkind p) MARGIN_RULE then inl MARGIN_RULE
+              else if kind_beq (pkind p) COMMENT then inr (log_error rx InvalidModificationErr)
+              else inr (log_error rx SyntaxErr)
+  end.
+
 Definition container_insert (rx : bool) (env : dict) (c : rule) (src : source) (index : option Z) : rule * result :=
   let len := length (rkids c) in
-  match (match index with
-         | None => Some len
-         | Some i => if (i <? 0)%Z || (Z.of_nat len <? i)%Z then None else Some (Z.to_nat i)
-         end) with
-  | None => (c, Exc IndexSizeErr)
-  | Some idx =>
-    let parsed : option kind + result :=
-        match src with
-        | Obj r => inl (Some (rkind r))
-        | Text ps => match parse_sheet rx env ps with
-                     | inr e => inr (Exc e)
-                     | inl (_, Some e) => inr (Exc e)
-                     | inl (tmp, None) => match tmp with
-                                          | [r] => inl (Some (rkind r))
-                                          | _ => inl None
-                                          end
-                     end
-        end in
-    match parsed with
-    | inr res => (c, res)
-    | inl None => (c, log_error rx SyntaxErr)
-    | inl (Some k) =>
-      if kin k (forbidden_in (rkind c)) then (c, log_error rx HierarchyRequestErr)
-      else (set_kids c (insert_at idx k (rkids c)), Ret (Some idx))
+  let pre : option (kind + result) :=
+      match src with
+      | Text ps => if is_kind PAGE_RULE c && page_text_as_margin then Some (page_text_kind rx ps) else None
+      | Obj _ => None
+      end in
+  match pre with
+  | Some (inr res) => (c, res)
+  | _ =>
+    match (match index with
+           | None => Some len
+           | Some i => if (i <? 0)%Z || (Z.of_nat len <? i)%Z then None else Some (Z.to_nat i)
+           end) with
+    | None => (c, Exc IndexSizeErr)
+    | Some idx =>
+      let parsed : option kind + result :=
+          match pre with
+          | Some (inl k) => inl (Some k)
+          | _ =>
+            match src with
+            | Obj r => inl (Some (rkind r))
+            | Text ps => match parse_sheet rx env ps with
+                         | inr e => inr (Exc e)
+                         | inl (_, Some e) => inr (Exc e)
+                         | inl (tmp, None) => match tmp with
+                                              | [r] => inl (Some (rkind r))
+                                              | _ => inl None
+                                              end
+                         end
+            end
+          end in
+      match parsed with
+      | inr res => (c, res)
+      | inl None => (c, log_error rx SyntaxErr)
+      | inl (Some k) =>
+        if kin k (forbidden_in (rkind c)) then (c, log_error rx HierarchyRequestErr)
+        else if is_kind PAGE_RULE c && page_merges_duplicates && kind_beq k MARGIN_RULE && kin MARGIN_RULE (rkids c)
+        then (c, Ret (first_pos (fun x => kind_beq x MARGIN_RULE) (rkids c)))
+        else (set_kids c (insert_at idx k (rkids c)), Ret (Some idx))
+      end
     end
   end.
 
